@@ -1,12 +1,14 @@
 """Pool: late module 2 - registered in sys.modules only by an import event."""
 from dataclasses import dataclass, field
+
+from sim.pool.base import StableHashMeta
 from typing import Optional
 
 __NAMESPACE__ = "urn:late2"
 
 
 @dataclass
-class LateTwo:
+class LateTwo(metaclass=StableHashMeta):
     class Meta:
         name = "lateTwo"
         namespace = "urn:late2"
